@@ -56,7 +56,7 @@ def confirm(src, sid):
                         else:
                             shutil.copy(p, os.path.join(tgt, f))
         place()
-        run = demo["run"]
+        run = re.split(r"\s{2,}\(", demo["run"])[0].strip()  # some deliveries append a remark in parentheses
         rc0, out0 = sh(run, cwd=repo)
         log["demo_without_patch"] = {"rc": rc0, "tail": out0[-600:]}
         rc, out = sh(f"git apply {os.path.abspath(src)}/patch.diff", cwd=repo)
